@@ -130,6 +130,8 @@ pub fn battery_capped(tz: &TimeZone, r: &mut Rng, cap: usize) -> Result<u64, Str
     for (i, tr) in tz.following(Timestamp::MIN).enumerate() {
         n += 1;
         prev = Some(tr.timestamp());
+        V::Ts(tr.timestamp()).in_range().map_err(|e| format!("following() yields a transition outside the Timestamp range: {}", e))?;
+        V::Off(tr.offset()).in_range().map_err(|e| format!("following() yields an offset outside the Offset range: {}", e))?;
         let _ = (tr.offset(), tr.abbreviation().len(), tr.dst());
         if i < 24 || i % 97 == 0 {
             probes.push(tr.timestamp());
@@ -148,6 +150,7 @@ pub fn battery_capped(tz: &TimeZone, r: &mut Rng, cap: usize) -> Result<u64, Str
     for (i, tr) in tz.preceding(Timestamp::MAX).enumerate() {
         n += 1;
         prev = Some(tr.timestamp());
+        V::Ts(tr.timestamp()).in_range().map_err(|e| format!("preceding() yields a transition outside the Timestamp range: {}", e))?;
         if i >= cap {
             if full {
                 return Err(format!("preceding() does not terminate: still yielding after {} steps (last {:?})", cap, prev));
